@@ -93,8 +93,10 @@ L['C08'] = dict(modules=['Schc.Properties.C08'], level='proof', technique='Lean 
               T('C08_sctp_packet', 'full', 'parse of ANY RFC 9260-encoded packet (common header + any chunks of any types) = the RFC field list in wire order; whole packet is header'),
               T('C08_sctp_chunk', 'full', 'one chunk of any type: header, per-type value fields (DATA, INIT, INIT ACK, SACK, parameter lists, SHUTDOWN, value-less, COOKIE ECHO, opaque), chunk padding'),
               T('C08_sctp_parameters', 'full', 'parameter TLV list with 4-byte padding'),
-              T('C08_sctp_value_tiles', 'full', 'the RFC fields of a chunk value spell its encoding (spec self-consistency)')],
-    level_text='Fixed field boundaries of all five protocols and the chaining tables are machine-checked against tables written from the RFCs, on tables re-extracted from the source on every run (a moved boundary breaks a `decide`). The CoAP option walk is proved against RFC 7252 §3.1 written as an encoder (Spec.wireOption) and the SCTP chunk / parameter / SACK walks against RFC 9260 §3 written as an encoder (Spec.SctpChunk.wire): parse of the encoding of any option list / any chunk list gives the RFC field list, positions and header length. The encoders pad every parameter inside the chunk value (RFC 9260 also allows the last parameter padding to count as chunk padding; that variant is exercised by correspondence only). Agreement of predictive and explicit stacks rests on the chaining tables (C08_chaining) and the parse correspondence stream.')
+              T('C08_sctp_value_tiles', 'full', 'the RFC fields of a chunk value spell its encoding (spec self-consistency)'),
+              T('C08_factory', 'full', 'what factory() builds for the explicit stacks and the single-protocol ids'),
+              T('C08_predict_agrees', 'full', 'the predicting IPv6 / IPv4 parser returns the same packet descriptor as the explicit IP/UDP/CoAP stack whenever next header = UDP and destination port = CoAP')],
+    level_text='Fixed field boundaries of all five protocols and the chaining tables are machine-checked against tables written from the RFCs, on tables re-extracted from the source on every run (a moved boundary breaks a `decide`). The CoAP option walk is proved against RFC 7252 §3.1 written as an encoder (Spec.wireOption) and the SCTP chunk / parameter / SACK walks against RFC 9260 §3 written as an encoder (Spec.SctpChunk.wire): parse of the encoding of any option list / any chunk list gives the RFC field list, positions and header length. The encoders pad every parameter inside the chunk value (RFC 9260 also allows the last parameter padding to count as chunk padding; that variant is exercised by correspondence only). Agreement of the predicting parsers with the explicit stacks is C08_predict_agrees (chains through UDP to SCTP, which no explicit stack covers, are compared by correspondence).')
 L['C14'] = dict(modules=['Schc.Properties.C14'], level='proof', technique='Lean 4 totality theorems with fuel (progress lemmas for every walk) + generated registry tables',
     theorems=[T('C14_total', 'full', 'every parser configuration, every bit string: a descriptor or ParserError — no hang, no foreign exception'),
               T('C14_header', 'full', 'each header parser, with/without prediction, CoAP in both option modes'),
